@@ -190,54 +190,103 @@ def rollup_rules(ctx: Ctx, rule: str):
 
 
 def scan_rules(ctx: Ctx, rule: str):
+    """The ready-scan of Project.scheduleScenario, in flow-graph terms (so that it does not matter whether the placement is written
+    inside the `for task in tasks` scan, after it, or in a helper that N-inline has folded back):
+      restart   every path from a placement `x.schedule(sc)` to the next readiness test passes the head of the outer `while tasks`
+                loop -- the sorted list is rescanned from its head, a higher-priority task that just became ready is not passed over;
+      gate      a placement is reached from the loop head only through the TRUE outcome of a readiness test;
+      source    the readiness scan iterates the sorted work list `tasks`, front to back."""
     repo = ctx.repo
     ss = repo.func("Project.scheduleScenario")
     g = cfg_of(ss)
     sched_calls = [c for c in own_nodes(ss) if isinstance(c, ast.Call) and isinstance(c.func, ast.Attribute) and c.func.attr == "schedule"]
     if not sched_calls:
         raise AnchorMissing("scheduleScenario does not call task.schedule")
+    outer = [n for n in g.nodes if n.kind == "while" and n.ast is not None and norm(n.ast) == "tasks"]
+    if len(outer) != 1:
+        raise AnchorMissing(f"scheduleScenario: {len(outer)} `while tasks` loops")
+    head = outer[0]
+    ready_nodes = [n for n in g.nodes if n.ast is not None and n.kind in ("if", "while", "stmt") and any(
+        isinstance(c, ast.Call) and isinstance(c.func, ast.Attribute) and c.func.attr == "readyForScheduling" for c in ast.walk(n.ast))]
+    if not ready_nodes:
+        raise AnchorMissing("scheduleScenario: readyForScheduling test not found")
+    ready_ids = {n.id for n in ready_nodes}
     for c in sched_calls:
         node = g.node_containing(c)
-        # innermost for loop around the call
-        loop = None
-        p = getattr(c, "_parent", None)
-        while p is not None and p is not ss.node:
-            if isinstance(p, ast.For):
-                loop = p
-                break
-            p = getattr(p, "_parent", None)
-        if loop is None:
-            raise AnchorMissing("task.schedule() is not inside a for loop")
-        hdr = g.node_of(loop)
-        # header reachable from the call without leaving the loop (lexically)?
-        inside = {id(x) for st in loop.body for x in ast.walk(st)}
-        seen, todo, again = {node.id}, [node.id], False
-        while todo:
-            a = todo.pop()
-            for (b, l) in g.succ[a]:
-                if l in ("exc", "excb"):
-                    continue
-                if b == hdr.id:
-                    again = True
-                    continue
-                bn = g.nodes[b]
-                if bn.ast is None or id(bn.ast) not in inside:
-                    continue          # left the loop body (break target / code after the loop)
-                if b not in seen:
-                    seen.add(b)
-                    todo.append(b)
+        # restart
+        again = not all(g.all_paths_pass(node, r, lambda n: n.id == head.id) for r in ready_nodes if r.id != node.id)
         ctx.ob(rule, f"{ss.qual}: scan restarts after {norm(c)}", (ss, c), not again,
-               "every path from the placement leaves the inner loop (the sorted list is rescanned from its head)" if not again else
+               "every path from the placement to the next readiness test passes the head of the outer loop (the sorted list is rescanned "
+               "from its head)" if not again else
                "after placing a task the scan continues with the next list element: a higher-priority task that just became ready is passed over",
                key=key_of(rule, ss, None, "restart"))
-        ok = norm(loop.iter) == "tasks"
-        ctx.ob(rule, f"{ss.qual}: inner loop iterates the sorted work list", (ss, loop), ok, "for task in tasks" if ok else
-               "the inner loop does not iterate the sorted work list", key=key_of(rule, ss, None, "loop iter"))
-        # not-ready tasks are skipped
-        skips = [n for n in loop.body if isinstance(n, ast.If) and "readyForScheduling" in norm(n.test)
-                 and isinstance(n.test, ast.UnaryOp) and any(isinstance(s, ast.Continue) for s in n.body)]
-        ctx.ob(rule, f"{ss.qual}: tasks that are not ready are skipped", (ss, loop), bool(skips),
-               "if not ready: continue" if skips else "readiness no longer gates the placement", key=key_of(rule, ss, None, "ready gate"))
+        # gate: remove the edges on which a readiness test came out true; the placement must become unreachable from the loop head
+        def ready_true_edge(a_id, lbl):
+            n = g.nodes[a_id]
+            if a_id not in ready_ids or n.kind != "if":
+                return False
+            neg = isinstance(n.ast, ast.UnaryOp) and isinstance(n.ast.op, ast.Not)
+            return lbl == ("F" if neg else "T")
+        # path-sensitive in one respect: which locals are known to hold None (a scan that found nothing leaves its result variable
+        # None, and the `is None` test that follows cannot come out false on that path)
+        def step_state(n, st_):
+            a = n.ast
+            if n.kind == "stmt" and isinstance(a, (ast.Assign, ast.AnnAssign)) and getattr(a, "value", None) is not None:
+                tg = a.targets if isinstance(a, ast.Assign) else [a.target]
+                if len(tg) == 1 and isinstance(tg[0], ast.Name):
+                    v = a.value
+                    if (isinstance(v, ast.Constant) and v.value is None) or (isinstance(v, ast.Name) and v.id in st_):
+                        return st_ | {tg[0].id}
+                    return st_ - {tg[0].id}
+            if n.kind in ("for", "foriter") and isinstance(getattr(a, "target", None), ast.Name):
+                return st_ - {a.target.id}
+            return st_
+
+        def feasible(n, lbl, st_):
+            if n.kind != "if" or n.ast is None:
+                return True
+            t = n.ast
+            neg = False
+            while isinstance(t, ast.UnaryOp) and isinstance(t.op, ast.Not):
+                t, neg = t.operand, not neg
+            val = None            # truth value of the (un-negated) test when known
+            if isinstance(t, ast.Compare) and len(t.ops) == 1 and isinstance(t.left, ast.Name) and t.left.id in st_ \
+                    and isinstance(t.comparators[0], ast.Constant) and t.comparators[0].value is None:
+                val = True if isinstance(t.ops[0], ast.Is) else (False if isinstance(t.ops[0], ast.IsNot) else None)
+            elif isinstance(t, ast.Name) and t.id in st_:
+                val = False
+            if val is None:
+                return True
+            if neg:
+                val = not val
+            return lbl == ("T" if val else "F")
+        start = (head.id, frozenset())
+        seen, todo, reach = {start}, [start], False
+        while todo:
+            a_, st_ = todo.pop()
+            na = g.nodes[a_]
+            st2 = step_state(na, st_)
+            for (b_, l_) in g.succ[a_]:
+                if l_ in ("exc", "excb") or ready_true_edge(a_, l_) or not feasible(na, l_, st2):
+                    continue
+                if b_ == node.id:
+                    reach = True
+                if b_ == head.id:
+                    continue          # next round of the outer loop: a fresh scan
+                key_ = (b_, st2)
+                if key_ not in seen and len(seen) < 20000:
+                    seen.add(key_)
+                    todo.append(key_)
+        ctx.ob(rule, f"{ss.qual}: tasks that are not ready are skipped", (ss, c), not reach,
+               "the placement is reached only after a readiness test came out true" if not reach else
+               "readiness no longer gates the placement: a path from the loop head reaches task.schedule() without a successful readiness test",
+               key=key_of(rule, ss, None, "ready gate"))
+    scans = [l for l in own_nodes(ss) if isinstance(l, ast.For) and any(
+        isinstance(c, ast.Call) and isinstance(c.func, ast.Attribute) and c.func.attr == "readyForScheduling" for c in ast.walk(l))]
+    ok = bool(scans) and all(norm(l.iter) == "tasks" for l in scans)
+    ctx.ob(rule, f"{ss.qual}: the readiness scan iterates the sorted work list", (ss, scans[0]) if scans else ss, ok,
+           "for task in tasks" if ok else "the readiness scan does not iterate the sorted work list front to back",
+           key=key_of(rule, ss, None, "loop iter"))
     rollup_rules(ctx, rule)
     # removal
     rem = [c for c in own_nodes(ss) if isinstance(c, ast.Call) and isinstance(c.func, ast.Attribute) and c.func.attr == "remove"
